@@ -142,7 +142,11 @@ func seedsFor(prop, verif string) []seedMeta {
 }
 
 func seedOverlay(repo, verif, seed string) (map[string][]byte, error) {
-	b, err := os.ReadFile(filepath.Join(verif, "seeded", seed, "patch.diff"))
+	return diffOverlay(repo, filepath.Join(verif, "seeded", seed, "patch.diff"))
+}
+
+func diffOverlay(repo, diffPath string) (map[string][]byte, error) {
+	b, err := os.ReadFile(diffPath)
 	if err != nil {
 		return nil, err
 	}
